@@ -8,6 +8,8 @@ mod client;
 mod codec;
 #[cfg(feature = "m_envelope")]
 mod envelope;
+#[cfg(feature = "m_loop")]
+mod evloop;
 #[cfg(feature = "m_keys")]
 mod keys;
 #[cfg(feature = "m_merkle")]
@@ -87,6 +89,8 @@ fn main() {
         "reqs" => reqs::run(&ctx),
         #[cfg(feature = "m_resp")]
         "respsend" => resp::run(&ctx),
+        #[cfg(feature = "m_loop")]
+        "evloop" => evloop::run(&ctx),
         "startup" => procs::run_startup(&ctx),
         "workers" => procs::run_workers(&ctx),
         "shutdown" => procs::run_shutdown(&ctx),
@@ -146,6 +150,8 @@ fn replay(ctx: &Ctx) {
             "req" => reqs::replay_one(&mut out, op, args),
             #[cfg(feature = "m_resp")]
             "respsend" => resp::replay_one(&mut out, args),
+            #[cfg(feature = "m_loop")]
+            "loop" => evloop::replay_one(&mut out, args),
             #[cfg(feature = "m_cfg")]
             "cfgleak" => cfg::replay_leak(&mut out, args),
             #[cfg(feature = "m_envelope")]
